@@ -126,6 +126,7 @@ def run(ctx):
     ctx.ob("E10.cfg", "other-cfg", not other, "other cfg conditions in src/: %s" % other)
     # provided trait methods that one backend overrides and the other inherits, among the methods blsful calls
     check_override_divergence(ctx, Pa, Pb)
+    check_derived_divergence(ctx, Pa, Pb)
     # seed-deterministic values avoid the backend sampler
     K.check_seeded_derivation(ctx, Pa)
     ctx.assume("blstrs_plus 0.8.18 and bls12_381_plus 0.8.18 implement the same curve arithmetic, encodings and hash-to-curve (numerical agreement of two dependency crates is not decided statically)")
@@ -164,6 +165,48 @@ def check_override_divergence(ctx, Pa, Pb, rule="E10.override"):
         why = OVERRIDE_TRIAGED.get(k)
         ctx.ob(rule, "%s::%s for %s" % (k[0], k[2], k[1]), why is not None, "blsful calls %s::%s; for %s it is %s in blstrs_plus and %s in bls12_381_plus%s" % (k[0], k[2], k[1], "overridden" if oa else "the trait default", "overridden" if ob else "the trait default", (" - triaged: " + why) if why else " - not triaged: the two backends may disagree here"), weak=why is not None)
     ctx.ob(rule, "summary", True, "%d provided methods differ in override status between the backends" % ndiv, sample={"divergent": ndiv})
+
+
+# (trait, backend type) whose impl is #[derive]d in one backend and hand-written in the other, read in both sources
+DERIVED_TRIAGED = {
+    ("Default", "Scalar"): "blstrs_plus derives Default over blst_fr (all-zero limbs = the zero scalar in Montgomery form); bls12_381_plus returns Scalar::ZERO - both are the zero scalar",
+}
+_ASSOC_ALIAS = {"PairingResult": "Gt", "Scalar": "Scalar"}
+
+
+def check_derived_divergence(ctx, Pa, Pb, rule="E10.derived"):
+    """A trait impl that is `#[derive]`d for a type in one backend crate and written by hand in the other may mean
+    different things (blstrs_plus derives `Default for Gt` = Fp12 zero, bls12_381_plus returns the identity).  Every
+    such (trait, type) pair whose method blsful calls *on that type* must be triaged."""
+    import re as _re
+
+    def tab(P):
+        t = {}
+        for o in (P.facts.get("walk") or {}).get("dep_overrides", []):
+            if "derived" in o:
+                t[(o["trait"], norm(o["self"]))] = o["derived"]
+        return t
+
+    ta, tb = tab(Pa), tab(Pb)
+    div = {k for k in set(ta) & set(tb) if ta[k] != tb[k]}
+    ctx.floor(rule, "backend trait impls compared (both builds)", min(len(ta), len(tb)), 150)
+    used = {}
+    for P in (Pa, Pb):
+        for f in P.fns.values():
+            for bb, t in f.calls():
+                c = t.get("callee") or {}
+                tr, st = c.get("trait"), c.get("self_ty") or ""
+                if not tr:
+                    continue
+                last = (_re.findall(r"[A-Za-z_][A-Za-z0-9_]*", st) or [""])[-1]
+                name = _ASSOC_ALIAS.get(last, last)
+                if (tr, name) in div:
+                    used.setdefault((tr, name), (f, bb))
+    for k in sorted(used):
+        f, bb = used[k]
+        why = DERIVED_TRIAGED.get(k)
+        ctx.ob(rule, "%s for %s" % k, why is not None, "blsful calls %s on %s (e.g. in %s); the impl is derived in %s and hand-written in the other backend%s" % (k[0], k[1], f.key, "blstrs_plus" if ta[k] else "bls12_381_plus", (" - triaged: " + why) if why else " - not triaged: the two backends may give different values"), where=where(f, bb), weak=why is not None)
+    ctx.ob(rule, "summary", True, "%d (trait, type) pairs differ in derivedness between the backends; %d of them are used by blsful" % (len(div), len(used)), sample={"divergent": sorted("%s/%s" % k for k in div)})
 
 
 def cfg_census(src):
